@@ -206,6 +206,7 @@ func runC02(c *Ctx) {
 		c.Check(bad == "", "C02.R9", shortFn(ihl)+": enabledOptions &^ hostLevelMask == 0", ihl.Pos(), fmt.Sprintf("decision evaluated on %d option sets (none, every single option, every pair)", n), bad)
 	}
 	importRules(c, runC13, map[string]string{"C13.R2": "C02.R7"}, nil)
+	importRules(c, runC03, map[string]string{"C03.R9": "C02.R10"}, map[string]string{"C02.R10": "the constants a ||domain^ rule is compiled with mean what the syntax documents: every sub-domain label a DNS name can have is covered (shared with C03.R9)"})
 	importRules(c, runC18, map[string]string{"C18.R1": "C02.R8", "C18.R2": "C02.R8", "C18.R3": "C02.R8", "C18.R4": "C02.R8", "C18.R5": "C02.R8", "C18.R10": "C02.R8"},
 		map[string]string{"C02.R8": "the host rules the engine answers with are the lines of the lists read as hosts-file syntax: tokenizer, name list, address acceptance, name matching (shared with C18)"})
 	importRules(c, runC11, map[string]string{"C11.R5": "C02.R7"}, map[string]string{"C02.R7": "the constructor sees every rule of every list: storage scanner visits all lists, indexes are retrievable (shared with C11.R5)"})
